@@ -117,3 +117,17 @@ def nontrivial(c):
             if int(t[4]) % 16 == 2 and t[2] != "0" and t[6] != "0" and t[2] != entry:
                 func = True
     return loads >= 2 and bss and func
+
+
+def pre_build(check, tier, seed):
+    """sanity check of the ELF writer: `readelf -a -W` must read back what the descriptions say (class, encoding,
+    machine, entry, every program header, both symbol tables, DT_NEEDED, every relocation)"""
+    import os
+    import subprocess
+    import sys
+    exe = os.path.join(check.BIN, HARNESS_BIN)
+    p = subprocess.run([exe, "selftest", "150"], capture_output=True, text=True)
+    if p.returncode != 0:
+        sys.stderr.write(p.stdout[-2000:] + p.stderr[-4000:])
+        sys.stderr.write("FATAL: the ELF writer of the C19 harness disagrees with readelf\n")
+        sys.exit(2)
